@@ -25,9 +25,11 @@ LOOP_KW = {'loop', 'while', 'for'}
 def parse_selectors(text):
     sels = []
     for part in [p.strip() for p in text.split('::')]:
-        m = re.match(r'^(fn|struct|enum|trait|mod|const|type|macro_rules|static)\s+(\w+)$', part)
+        m = re.match(r'^(fn|struct|enum|trait|mod|const|type|macro_rules|static)\s+(\w+)(?:\s+(#\[.*\]))?$', part)
         if m:
-            sels.append((m.group(1), m.group(2)))
+            # `fn NAME #[ATTR]`: among the items of that name only the one carrying exactly this attribute (two `fn run` under
+            # `#[cfg(windows)]` / `#[cfg(not(windows))]`); kept in the pattern after a NUL so that selectors stay pairs
+            sels.append((m.group(1), m.group(2) + ('\0' + ''.join(m.group(3).split()) if m.group(3) else '')))
             continue
         m = re.match(r'^impl\s+/(.*)/$', part)
         if m:
@@ -246,7 +248,8 @@ class Assembler:
 
                 # default target: the selected item itself if it is a fn
                 if blk.selectors[-1][0] == 'fn':
-                    blk.cur = blk.fns.setdefault(blk.selectors[-1][1], FnTarget(blk.selectors[-1][1]))
+                    fn_name = blk.selectors[-1][1].partition('\0')[0]
+                    blk.cur = blk.fns.setdefault(fn_name, FnTarget(fn_name))
                 while i < len(lines):
                     s2 = lines[i].strip()
                     if s2.startswith('//@'):
